@@ -106,7 +106,7 @@ var (
 		"application/vnd.oasis.opendocument.formula", "application/vnd.oasis.opendocument.chart",
 		"application/epub+zip", "application/vnd.sun.xml.calc",
 	}
-	c19Bookkeeping = []string{"_rels/.rels", "docProps/app.xml", "docProps/core.xml", "docProps/thumbnail.jpeg", "customXml/item1.xml", "customXml/itemProps1.xml", "[trash]/0000.dat", "customXml/_rels/item1.xml.rels"}
+	c19Bookkeeping = []string{"customXml/LOCK.PK", "docProps/BACKUP.PK", "_rels/.rels", "docProps/app.xml", "docProps/core.xml", "docProps/thumbnail.jpeg", "customXml/item1.xml", "customXml/itemProps1.xml", "[trash]/0000.dat", "customXml/_rels/item1.xml.rels"}
 	c19Unrelated   = []string{"readme.txt", "a", "1", "images/logo.png", "data/2024/report.csv", "Word/document.xml", "words/list.txt", "word", "xl.xml", "xl", "ppt", "pptx/slide.xml", "META-INF/MANIFEST", "META-INF/manifest.xml", "META-INF/container.xml", "meta-inf/MANIFEST.MF", "content.xml", "styles.xml", "OEBPS/content.opf", "classes.dexx", "Android.xml", "res/draw", "lib/word/x", "src/xl/y", "mimetype.txt"}
 	c19Parts       = map[string][]string{
 		"word/": {"word/document.xml", "word/_rels/document.xml.rels", "word/styles.xml", "word/"},
@@ -124,7 +124,7 @@ func c19GenBody(t *rapid.T) vfB {
 	case 2:
 		return vfB("<?xml version=\"1.0\"?><Relationships xmlns=\"http://schemas.openxmlformats.org/package/2006/relationships\"/>")
 	case 3:
-		return vfB(rapid.SampledFrom([]string{"x", "/", "/document.xml", "hello", ".MF", "Manifest-Version: 1.0\n", "/workbook.xml trailing", "0123456789abcdef"}).Draw(t, "small"))
+		return vfB(rapid.SampledFrom([]string{"x", "/", "/document.xml", "hello", ".MF", "Manifest-Version: 1.0\n", "/workbook.xml trailing", "0123456789abcdef", "PK", "xPK", "dataPK\x05", "PK\x01\x02", "K", "P"}).Draw(t, "small"))
 	case 4:
 		b := rapid.SliceOfN(rapid.Byte(), 1, 300).Draw(t, "rnd")
 		return vfB(bytes.ReplaceAll(b, []byte("PK"), []byte("pk")))
